@@ -227,8 +227,10 @@ def gen_oracle_case(rng, url_names):
     return d, M
 
 
-def check_site(d, M):
-    src, out, scratch, err = gen_site.generate(d, M)
+def check_site(d, M, mode="abs", regen=False):
+    """mode: how the source directory is named (gen_site.PATH_MODES); regen: afterwards a recipe is added and linked to in the same
+    source directory and the site is generated again, in this process, into a second output directory"""
+    src, out, scratch, err = gen_site.generate(d, M, mode=mode)
     try:
         if err is not None:
             name = type(err).__name__
@@ -236,7 +238,31 @@ def check_site(d, M):
                 return []
             # every authored link of the generated trees points at an existing recipe, directory, readme or file inside the tree
             return [("C14:generation-raises:%s" % name, str(err)[:200])]
-        return crawl(d, M, src, out)
+        res = crawl(d, M, src, out)
+        if regen and not res:
+            import copy
+            from recipe_grid.static_site.website import generate_static_site
+            d2 = copy.deepcopy(d)
+            holders = [(rel, dd) for rel, dd in gen_site.walk(d2) if dd["recipes"]]
+            if holders:
+                rel, dd = holders[len(holders) // 2]
+                new = dict(file="added-later.md", title="Added later", servings=2, links=[])
+                dd["recipes"][0]["links"].append(("Lnew", "added-later.md", ("recipe", (rel + "/" if rel else "") + "added-later.md")))
+                dd["recipes"].append(new)
+                sub = dict(name="newer-dir", readme=None, recipes=[dict(file="inside.md", title="Inside", servings=None, links=[])], subdirs=[], assets=[])
+                dd["subdirs"].append(sub)
+                real = src.resolve()
+                gen_site.write_tree(d2, real)
+                out2 = scratch / "out-second"
+                try:
+                    generate_static_site(src, out2, M)
+                except Exception as e:  # noqa
+                    return [("C14:second-generation-raises:%s" % type(e).__name__, str(e)[:200])]
+                res = [(sig + ":second-generation-after-additions", det) for sig, det in crawl(d2, M, src, out2)]
+                want_new = "/serves1/" + (rel + "/" if rel else "") + "added-later.html"
+                if want_new not in set(gen_site.output_files(out2)):
+                    res.append(("C14:page-missing:second-generation-after-additions", "%s was added to the source before the second generation and has no page" % want_new))
+        return res
     finally:
         shutil.rmtree(scratch, ignore_errors=True)
 
@@ -245,12 +271,14 @@ def oracle(run):
     rng = run.rng
     for i in range(run.budget(30, 800)):
         d, M = gen_oracle_case(rng, url_names=(i % 3 == 0))
-        run.case(("oracle", gen_site.tree_sexp(d), M, repr(d)[:0]), True, kind="crawl")
+        mode = gen_site.PATH_MODES[(i // 2) % 3] if i % 2 else "abs"
+        regen = (i % 5 == 1)
+        run.case(("oracle", gen_site.tree_sexp(d), M, repr(d)[:0]), True, kind="crawl" + ("" if mode == "abs" else "-" + mode) + ("-regen" if regen else ""))
         seen = set()
-        for sig, detail in check_site(d, M):
+        for sig, detail in check_site(d, M, mode, regen):
             if sig not in seen:
                 seen.add(sig)
-                run.violate(sig, detail, {"site": d_json(d), "M": M})
+                run.violate(sig, detail, {"site": d_json(d), "M": M, "mode": mode, "regen": regen})
 
 
 def d_json(d):
@@ -270,16 +298,35 @@ def d_unjson(j):
 
 
 # ------------------------------------------------------------------ C10: titles, breadcrumbs, list entries, names are inert
-NASTY_TITLES = ["Tom's \"best\"", "Fish & chips", "a > b < c", "x &amp; y", "<script>alert(1)</script>", "50% #1", "naïve café"]
+NASTY_TITLES = ["Tom's \"best\"", "Fish & chips", "a > b < c", "x &amp; y", "<script>alert(1)</script>", "50% #1", "naïve café",
+                # plain text that looks like markup / a character reference once it has been read (Markdown source: backslash escapes, &amp;)
+                "Tips \\<b\\>bold\\</b\\> & more", "Salt &amp;amp; pepper", "1 \\< 2 \\> 0", "\\<i\\>x"]
+
+
+RECIPE_TITLES = [t for t in NASTY_TITLES if not t.startswith("<script")]      # raw HTML in a recipe's heading: no title, generation refuses the recipe
+
+
+def plain_title(src):
+    """the text of a plain Markdown heading: backslash escapes of ASCII punctuation and character references resolved"""
+    import html as pyhtml
+    import re as _re
+    return pyhtml.unescape(_re.sub(r"\\([!-/:-@\[-`{-~])", r"\1", src))
 
 
 def inert_site(rng):
     d = gen_site.gen_tree(rng, 2, ["it's", "a&b", "q\"r", "x<y>", "plain"], p_readme=0.5, servings_pool=(None, 1, 2))
+    k = rng.randrange(len(NASTY_TITLES))
     for rel, dd in gen_site.walk(d):
         if dd["readme"]:
-            dd["readme"]["title"] = rng.choice(NASTY_TITLES)
+            k += 1
+            dd["readme"]["title"] = RECIPE_TITLES[k % len(RECIPE_TITLES)]
         for r in dd["recipes"]:
-            r["title"] = rng.choice(NASTY_TITLES) + " " + str(rng.randint(0, 99))
+            k += 1
+            r["title"] = RECIPE_TITLES[k % len(RECIPE_TITLES)] + " " + str(rng.randint(0, 99))
+    # every kind of title at least once per site
+    extra = [t for t in RECIPE_TITLES if not any(r["title"].startswith(t) for _, dd in gen_site.walk(d) for r in dd["recipes"])]
+    for i, t in enumerate(extra):
+        d["recipes"].append(dict(file="extra%d.md" % i, title=t + " " + str(i), servings=rng.choice([None, 2]), links=[]))
     return d
 
 
@@ -288,15 +335,15 @@ def check_inert(d, M):
     src, gen_out, scratch, err = gen_site.generate(d, M)
     try:
         if err is not None:
-            return out
+            return [("C10:site-with-odd-titles-not-generated", "%s: %s" % (type(err).__name__, str(err)[:200]))]
         import html as pyhtml
         titles = set()
         for rel, dd in gen_site.walk(d):
             # the author's title is the heading text with character references decoded (C18)
             if dd["readme"]:
-                titles.add(pyhtml.unescape(dd["readme"]["title"]))
+                titles.add(plain_title(dd["readme"]["title"]))
             for r in dd["recipes"]:
-                titles.add(pyhtml.unescape(r["title"]))
+                titles.add(plain_title(r["title"]))
         for f in gen_site.output_files(gen_out):
             if not f.endswith(".html"):
                 continue
@@ -306,8 +353,16 @@ def check_inert(d, M):
                 out.append(("C10:site-page-malformed", "%s: %s" % (f, problems[:2])))
                 continue
             for n in root.iter():
-                if n.tag in ("script", "b") and n.parent is not None:
+                if n.tag in ("script", "b", "i") and n.parent is not None:
                     out.append(("C10:title-became-markup", "%s contains <%s>" % (f, n.tag)))
+            # the page's <title> is "<title of the page> - <site name>", character for character (modulo HTML white space)
+            from recipe_grid.static_site.recipe_directory import dirname_to_title as _d2t
+            for n in root.iter():
+                if n.tag == "title":
+                    shown = " ".join(n.text().split())
+                    cands = {" ".join(t.split()) for t in titles} | {_d2t(dd["name"]) for _, dd in gen_site.walk(d)} | {_d2t(src.name), "Categories"} | {"Recipes for %d" % i for i in range(1, M + 1)}
+                    if " - " in shown and not any(shown.startswith(c + " - ") or shown.startswith(c + " for ") or shown.startswith(c + " ") for c in cands if c):
+                        out.append(("C10:page-title-text-differs", "%s: <title> %r is not a title of the site" % (f, shown)))
             # breadcrumb labels and list entries are titles character for character
             for n in root.iter():
                 if n.tag == "a" and n.parent is not None and n.parent.tag == "li":
@@ -342,7 +397,7 @@ def replay_inert(r):
 
 def replay(run, obj):
     r = obj["replay"]
-    res = check_site(d_unjson(r["site"]), r["M"])
+    res = check_site(d_unjson(r["site"]), r["M"], r.get("mode", "abs"), r.get("regen", False))
     for x in res:
         print(*x)
     return bool(res)
